@@ -101,6 +101,7 @@ type SimKnobs struct {
 	Watch    []string `json:"watch,omitempty"`
 	Stdio    int      `json:"stdio,omitempty"` // what stdout is connected to: 0 terminal, 1 pipe, 2 regular file
 	Strategy int      `json:"strategy,omitempty"` // 0 tape picks, 1 PCT-style priorities with change points
+	MaxSteps int      `json:"max_steps,omitempty"`      // step cap per scheduling phase (0 = 200000); very long runs raise it
 	AutoAdvS int      `json:"auto_advance_s,omitempty"` // simulated seconds a phase may let pass on its own while a harness task waits (0 = 5)
 	Dense    bool     `json:"dense,omitempty"`    // the scenario asks for a scheduling choice at every step (contention presets)
 }
@@ -209,6 +210,8 @@ func RunCase(t *testing.T, p Property, scn any, knobs SimKnobs, tape []int, keep
 				Offset: time.Duration(knobs.OffsetMs) * time.Millisecond, KeepTrace: keep, Watch: knobs.Watch, Strategy: knobs.Strategy,
 			}
 			cfg.AutoAdvance = time.Duration(knobs.AutoAdvS) * time.Second
+			cfg.MaxSteps = knobs.MaxSteps
+			cfg.CycleTape = knobs.Dense
 			if verifsim.Active() != nil {
 				verifsim.Deactivate()
 				panic(fmt.Sprintf("harness: previous case left its simulation active; previous scenario: %s", lastScenario))
